@@ -480,6 +480,15 @@ def gen_edges(rng, tier):
                 out.append(Case(fn, dm, [d], "dmax-sweep"))
                 out.append(Case(fn, dm + 2, [b"p=", d], "dmax-sweep"))
                 out.append(Case(fn, dm + 1, [d, b";"], "dmax-sweep"))
+    # stream variants: total text lengths around the sizes an implementation might stage through (powers of two and the
+    # stdio buffer sizes), as literal text, as one padded directive and as a mix — the bytes must be the text, whatever its length
+    for fn in STREAM_FNS:
+        for n in [63, 64, 65, 127, 128, 129, 255, 256, 257, 511, 512, 513, 1023, 1024, 1025, 4095, 4096, 4097, 8191, 8192, 8193]:
+            lit = bytes(0x61 + i % 26 for i in range(n))
+            out.append(Case(fn, 0, [lit], "stream-length"))
+            out.append(Case(fn, 0, [D("", n, None, "", "d", 7)], "stream-length"))
+            out.append(Case(fn, 0, [lit[:n - 3], D("", None, None, "", "d", 123)], "stream-length"))
+            out.append(Case(fn, 0, [D("-", n - 1, None, "", "s", b"xy"), b"|"], "stream-length"))
     # %lc with small destinations (the stray two-byte copy to dest[0])
     for dm in [1, 2, 3, 8]:
         for pre in [b"", b"a", b"abcd"]:
